@@ -40,7 +40,7 @@ func delegatePart(t *testing.T, env vh.Env) {
 	var cases []DelegCase
 	if env.Replay != "" {
 		var c DelegCase
-		if err := vh.LoadReplayCase(env.Replay, &c); err != nil || (c.Kind != "delegate" && c.Kind != "restart") {
+		if err := vh.LoadReplayCase(env.Replay, &c); err != nil || (c.Kind != "delegate" && c.Kind != "restart" && c.Kind != "lograce" && c.Kind != "biglog") {
 			return
 		}
 		if c.Kind == "delegate" {
@@ -68,6 +68,8 @@ func delegatePart(t *testing.T, env vh.Env) {
 		}
 	}
 	restartJudge(env, run)
+	raceJudge(env, run)
+	bigLogJudge(env, run)
 	if err := run.Finish("delegate part: real cluster.Peers on loopback, a joiner obtains the sender's notification log through the push/pull full state of its join although the message also holds a part for an unknown state key / a silences part it refuses (several joins = several part orders); judged, no model cases"); err != nil {
 		t.Fatal(err)
 	}
